@@ -3,6 +3,7 @@ package sym
 import (
 	"fmt"
 	"go/types"
+	"sort"
 )
 
 // Object ids: [1, nbase) are objects of the post-init base state (shared, read-only
@@ -489,6 +490,39 @@ func (st *State) loadSym(p Ptr, t types.Type, size int64) Value {
 				r = c.Ite(c.Ult(off, c.Const(uint64(runs[i].end), 64)), runs[i].v, r)
 			}
 			return r
+		}
+	}
+	// sparse pointer tables (id -> *descriptor): decide which written slot is addressed, all other
+	// offsets read nil
+	if isPointerLike(t) && size == 8 && st.provablyAligned(off, 8) && len(o.Cells) <= 1024 {
+		offs := make([]int64, 0, len(o.Cells))
+		okAll := true
+		for q, cell := range o.Cells {
+			if cell.N != 8 || q%8 != 0 {
+				okAll = false
+				break
+			}
+			switch pv := cell.V.(type) {
+			case Ptr:
+				if pv.Obj != 0 {
+					offs = append(offs, q)
+				}
+			case *T:
+				if !(pv.IsConst() && pv.K == 0) {
+					okAll = false
+				}
+			default:
+				okAll = false
+			}
+		}
+		if okAll {
+			sort.Slice(offs, func(i, j int) bool { return offs[i] < offs[j] })
+			for _, q := range offs {
+				if st.decide(c.Eq(off, c.Const(uint64(q), 64))) {
+					return o.Cells[q].V
+				}
+			}
+			return e.nilPtr()
 		}
 	}
 	v := st.concretize(off, "symbolic load offset")
